@@ -35,16 +35,47 @@ Oracle (no model, no table): for every exposed method outside the documented all
     action execution: only SUCCESS/ERROR/CANCELLED/PAUSED/RUNNING), a description is never written
     together with a state, an unfinished execution is deleted only with force.
 
-Self-test (scratch worktree of /repo, `VERIF_REPO=/tmp/wt_C16 ./check C16`), each -> VIOLATION:
-  M1 task.py TasksController.put: drop the `task_ex.state != ERROR` guard
-  M2 execution.py ExecutionsController.get_all: `if all_projects or project_id:` -> `if all_projects:`
-  M3 workbook.py WorkbooksController.put: move acl.enforce('workbooks:publicize') after the update call / drop it
-  M4 execution.py ExecutionsController.delete: `if not force:` -> `if force:`
-  M5 cron_trigger.py CronTriggersController.delete: acl.enforce('cron_triggers:get', ...) (wrong rule)
-  M6 environment.py EnvironmentController.get: acl.enforce moved after the database read
-  M7 action_execution.py: SUPPORTED_TRANSITION_STATES gains states.IDLE
-  M8 execution.py put: description+state check removed
-  M9 a new exposed method without acl.enforce (tasks.py TasksController.delete)
+Finding on the unchanged tree (reported by the oracle, signature
+exec-delete:force-text-not-true-deletes-unfinished; modelled faithfully, see
+C16_execution_delete_without_force_refuted / C16_execution_delete_in_source):
+  DELETE /v2/executions/<id>?force=false (also force=0, force=no, force=False) deletes an
+  unfinished execution: the parameter is declared `bool` to wsme 0.13, which converts with
+  bool(text), so every non-empty text means True.  Fix tested in a scratch worktree: declare the
+  parameter as text and parse it with oslo_utils.strutils.bool_from_string (the extractor then emits
+  exec_delete_force_conv = ConvStrutils and the check is green).
+
+Self-test (scratch worktree of /repo with the fix above applied so that the baseline is green,
+`VERIF_REPO=/tmp/wt_C16 ./check C16`); each line: mutation -> how it was reported
+  M1  task.py TasksController.put: `task_ex.state != ERROR` guard removed
+        -> VIOLATION task-put:not-from-error (PUT {'state':'RUNNING','reset':true} on an IDLE task calls the engine)
+  M3  workbook.py WorkbooksController.put: `if scope == 'public': acl.enforce('workbooks:publicize')` removed
+        -> VIOLATION publicize-not-refused:WorkbooksController.put (+ theorems broken)
+  M4  execution.py ExecutionsController.delete: `if not force:` -> `if force:`
+        -> VIOLATION exec-delete:unfinished-without-force
+  M5  cron_trigger.py CronTriggersController.delete: acl.enforce('cron_triggers:get', ...) (wrong rule)
+        -> VIOLATION denied-but-effect:CronTriggersController.delete (documented rule denied, row deleted; theorems broken)
+  M6  environment.py EnvironmentController.get: acl.enforce moved after the database read
+        -> VIOLATION denied-but-effect:EnvironmentController.get (403 but a SELECT ran first; theorems broken)
+  M7  action_execution.py: SUPPORTED_TRANSITION_STATES gains states.IDLE
+        -> VIOLATION ... no-failing-input-found (C16_action_supported_states no longer holds; the request only crashes with 500)
+  M8  execution.py put: "description must be updated separately from state" check removed
+        -> VIOLATION exec-put:description-with-state / exec-put:refused-with-effect
+  M9  task.py: new exposed TasksController.delete without acl.enforce
+        -> VIOLATION denied-but-effect:TasksController.delete (synthesized request), no-documented-rule, theorems broken
+  M10 event_trigger.py get_all: `if all_projects: acl.enforce(... list:all_projects)` removed
+        -> VIOLATION all-projects-not-refused:EventTriggersController.get_all
+  M11 member.py MembersController.delete: acl.enforce removed -> VIOLATION denied-but-effect:MembersController.delete
+  M12 policies/workflow.py: workflows:publicize check_str admin_only -> admin_or_owner
+        -> VIOLATION publicize-not-refused:WorkflowsController.post/put (+ C16_publicize broken)
+  M13 execution.py put: `elif states.is_completed(state)` -> `elif state != IDLE` -> VIOLATION exec-put:undocumented-stop
+  M14b rest_utils.wrap_pecan_controller_exception: status=e.http_code -> status=400 -> VIOLATION (403 required)
+  M15 access_control.enforce: do_raise default False -> VIOLATION (every denied request goes through)
+  M16 task.py put: target-state check loosened to states.is_valid -> VIOLATION task-put:undocumented-target
+  Not reported, and rightly so (equivalent with respect to the property):
+  M2  execution.py get_all: `if all_projects or project_id:` -> `if all_projects:`  (a non-admin's project_id
+      filter stays inside the secured query: no row of another project is shown; oracle `foreign-project`)
+  M14 rest_utils.wrap_wsme_controller_exception: status_code=400 (dead code: wsexpose formats the
+      exception itself from e.code before the wrapper sees it)
 """
 import copy
 import hashlib
@@ -953,6 +984,70 @@ def suite_handle_and_oracle(ctx, app, table, live):
     return cases
 
 
+def suite_sequences(ctx, app, table):
+    """Random sequences of requests by a caller whose policy denies (at least) the rule each method
+    checks: whatever the order and mix of methods, verbs, present/absent resources and conditions,
+    the database after the sequence is the database before it and the engine was never called.
+    Model side: fold_left serve over the same rows and environments returns the initial database."""
+    rng = ctx.rng
+    methods = table['methods']
+    ids = app.seed()
+    pool = []
+    for idx, m in enumerate(methods):
+        key = method_key(m)
+        fe = first_enforce(m)
+        if key in UNGUARDED_ALLOWLIST or not fe or m['cls'] == 'MembersController':
+            continue
+        for mount in m['mounts']:
+            for req in build_requests(ids, key, mount) or []:
+                pool.append((idx, key, m, req, fe))
+                for (rule, cond) in conds_before_data(m):
+                    pool.append((idx, key, m, variant(req, cond), rule))
+    nseq, length = ctx.n(25, 250), 12
+    all_rules = [r['name'] for r in table['rules'] if r['kind'] != 'BaseRule']
+    seqs, exprs = [], []
+    for _ in range(nseq):
+        seq = []
+        for _ in range(length):
+            idx, key, m, req, must = rng.choice(pool)
+            denied = sorted(set([must] + rng.sample(all_rules, rng.choice([0, 0, 1, 3, 10]))))
+            seq.append((idx, key, req, denied))
+        seqs.append(seq)
+        items = ['(m_effects (nth %d methods (mkMethod "" "" ROUTE [] NoWrap [] [] false false)), %s, (fun db : nat => (999, S db)))'
+                 % (idx, coq_env(denied, req.get('conds', []), False)) for (idx, key, req, denied) in seq]
+        exprs.append('fold_left serve %s 0' % coq_list(items))
+    res = core.coq_eval('c16seq', IMPORTS + ['Proofs.RestProofs'], exprs, chunk=25)
+    app.seed()
+    for seq, r in zip(seqs, res):
+        start = app.db_hash()
+        statuses, rpc_total, data_total = [], 0, 0
+        for (idx, key, req, denied) in seq:
+            app.set_policy('deny', denied)
+            status, events, rpcs = app.request(req)
+            statuses.append(status)
+            rpc_total += len(rpcs)
+            data_total += len(data_events(events))
+        app.set_policy('default')
+        end = app.db_hash()
+        ctx.count('sequences', tuple((k, q['url'], q['verb'], tuple(d)) for (_, k, q, d) in seq), evaluations=len(seq))
+        ctx.cov['disagreements_checked'] += 1
+        impl_unchanged = (start == end and rpc_total == 0 and data_total == 0 and all(x == 403 for x in statuses))
+        if (r.strip() == '0') != impl_unchanged:
+            ctx.disagree('sequences', {'requests': [(k, q['verb'], q['url'], d) for (_, k, q, d) in seq]},
+                         'final db = %s' % r, {'unchanged': start == end, 'statuses': statuses, 'engine_calls': rpc_total,
+                                               'data_accesses': data_total})
+        if not impl_unchanged:
+            bad = next((i for i, x in enumerate(statuses) if x != 403), 0)
+            (_, k, q, d) = seq[bad]
+            ctx.fail('denied-sequence-effect:%s' % k,
+                     'a sequence of %d requests, each denied the rule its method checks, answered %s; database unchanged=%s, '
+                     'engine calls=%d, data accesses=%d (required: all 403, nothing read or changed)' % (
+                         len(seq), statuses, start == end, rpc_total, data_total),
+                     {'method': k, 'request': {x: q[x] for x in ('verb', 'url', 'body')}, 'policy': 'deny', 'denied': d,
+                      'kind': 'denied', 'auth_enable': False})
+            app.seed()
+
+
 def judge_default_policy(kind, out):
     """the property text for a non-admin caller under the default policy"""
     clean = out['unchanged'] and not out['rpc']
@@ -1048,10 +1143,22 @@ def exec_table(app):
     return next(t.name for t in app.tables() if t.name.startswith('workflow_executions'))
 
 
+def random_texts(ctx):
+    """extra requested-state texts for the thorough tier: case / spacing variants and random words"""
+    if not ctx.thorough():
+        return []
+    rng = ctx.rng
+    out = []
+    for base in ROW_STATES:
+        out += [base.lower(), base.capitalize(), ' ' + base, base + '\n', base[:-1], base + 'X']
+    out += [''.join(rng.choice('ABCDEGILNPRSUW_') for _ in range(rng.randrange(1, 12))) for _ in range(40)]
+    return sorted(set(t for t in out if t not in STATE_TEXTS))
+
+
 def suite_exec_put(ctx, app, only=None):
     rng = ctx.rng
     combos = []
-    for st in STATE_TEXTS + [None]:
+    for st in STATE_TEXTS + [None] + random_texts(ctx):
         for desc in (None, 'new description', ''):
             for env in (None, {'k2': 'v2'}, {}):
                 for present in (True, False):
@@ -1201,7 +1308,7 @@ def suite_exec_delete(ctx, app, only=None):
 def suite_task_put(ctx, app, only=None):
     rng = ctx.rng
     combos = []
-    for st in STATE_TEXTS + [None]:
+    for st in STATE_TEXTS + [None] + random_texts(ctx)[:40]:
         for cur in ROW_STATES:
             for reset in (None, True, False):
                 for wi in (False, True):
@@ -1276,7 +1383,7 @@ def suite_task_put(ctx, app, only=None):
 
 def suite_action_put(ctx, app, only=None):
     cases, exprs = [], []
-    for st in STATE_TEXTS + [None]:
+    for st in STATE_TEXTS + [None] + random_texts(ctx):
         for output in (None, '{"r": 1}', '{}'):
             for present in (True, False):
                 cases.append((st, output, present))
@@ -1389,6 +1496,7 @@ def run(ctx):
     live = suite_enumerate(ctx, app, table)
     suite_handle_and_oracle(ctx, app, table, live)
     suite_default_policy_oracle(ctx, app, table)
+    suite_sequences(ctx, app, table)
     suite_exec_put(ctx, app)
     suite_exec_delete(ctx, app)
     suite_task_put(ctx, app)
@@ -1410,6 +1518,7 @@ def search(ctx):
     try:
         suite_handle_and_oracle(ctx, app, table, live)
         suite_default_policy_oracle(ctx, app, table)
+        suite_sequences(ctx, app, table)
         suite_exec_put(ctx, app)
         suite_exec_delete(ctx, app)
         suite_task_put(ctx, app)
